@@ -119,13 +119,10 @@ class Assembler:
             consumed = True
 
         if stmt.get("type") == "org":
-            if first_pass:
-                try:
-                    new_addr = int(str(stmt["args"]), 0)
-                except ValueError:
-                    new_addr = 0
-            else:
-                new_addr = self._evaluate_operand(str(stmt["args"]))
+            # Both passes must place the origin at the same address: resolve
+            # symbols in pass one too (a symbol not yet defined is an error).
+            new_addr = self._evaluate_operand(str(stmt["args"]))
+            if not first_pass:
                 self.current_address = new_addr
 
             pointers[current_section] = new_addr
